@@ -212,6 +212,7 @@ pub fn run(ctx: &Ctx) -> Outcome {
             if w == 0 {
                 rollback::vector_lengths(&mut o);
                 rollback::lazy_iterators(&mut o);
+                rollback::empty_values(&mut o);
                 rollback::static_rows(&mut o);
                 rollback::swallowed_error_probe(&mut o);
                 o.sample(json!({"rollback": {"prefix": ["i32->int", "String->text"], "then": "Vec<CqlValue>[Int x3, Text]->list<int>", "expect": "Err; bytes, element_count(), iter() unchanged"}}));
@@ -234,7 +235,7 @@ pub fn run(ctx: &Ctx) -> Outcome {
         for k in rollback::FAIL_KINDS {
             out.require_class(&format!("rollback:failed:{k}"));
         }
-        for c in ["rollback:failed-on-nonempty-prefix", "rollback:list-completed", "row:from_serializable-ok", "row:failing-row-rejected", "row:rowwriter-ok", "row:static-ok", "vector:exact-length-accepted", "vector:wrong-length-refused", "vector:length-congruent-mod-65536-refused", "lazy:fitting-column-accepted", "lazy:element-type-mismatch-refused"] {
+        for c in ["rollback:failed-on-nonempty-prefix", "rollback:list-completed", "row:from_serializable-ok", "row:failing-row-rejected", "row:rowwriter-ok", "row:static-ok", "vector:exact-length-accepted", "vector:wrong-length-refused", "vector:length-congruent-mod-65536-refused", "lazy:fitting-column-accepted", "lazy:element-type-mismatch-refused", "empty:accepted-for-an-emptiable-type", "empty:refused-for-a-non-emptiable-type"] {
             out.require_class(c);
         }
         if !ctx.miri() {
